@@ -22,6 +22,7 @@ type SpecCtx struct {
 	loopPos token.Pos
 	pkg     *types.Package
 	depth   int
+	binders int
 }
 
 type specFail struct{ msg string }
@@ -140,6 +141,19 @@ func (c *SpecCtx) Eval(e SExpr) Val {
 		}
 		n := *c
 		n.st = c.old
+		if c.fr != nil {
+			// inside a loop invariant: old(...) sees parameters at their entry values
+			n.fr = nil
+			n.vars = make(map[string]Val, len(c.vars)+len(x.rootArgs))
+			for k, vv := range c.vars {
+				n.vars[k] = vv
+			}
+			if c.fr.fn == x.root {
+				for k, vv := range x.rootArgs {
+					n.vars[k] = vv
+				}
+			}
+		}
 		return n.Eval(e.X)
 	case *SUn:
 		v := c.Eval(e.X)
@@ -182,6 +196,7 @@ func (c *SpecCtx) Eval(e SExpr) Val {
 		return Val{S: fmt.Sprintf("(mk_slice (s_reg %s) (+ (s_off %s) %s) (- %s %s) (- (s_cap %s) %s))", v.S, v.S, lo, hi, lo, v.S, lo), T: v.T}
 	case *SQuant:
 		n := *c
+		n.binders = c.binders + 1
 		n.vars = make(map[string]Val, len(c.vars)+len(e.Vars))
 		for k, vv := range c.vars {
 			n.vars[k] = vv
@@ -202,7 +217,11 @@ func (c *SpecCtx) Eval(e SExpr) Val {
 			n.vars[bv] = specVal(name, "Int")
 			binds = append(binds, "("+name+" Int)")
 		}
-		body := n.Bool(e.Body)
+		x.S.Inline++
+		body := func() string {
+			defer func() { x.S.Inline-- }()
+			return n.Bool(e.Body)
+		}()
 		if len(guards) > 0 {
 			if e.Forall {
 				body = Imp(And(guards...), body)
@@ -213,6 +232,12 @@ func (c *SpecCtx) Eval(e SExpr) Val {
 		q := "exists"
 		if e.Forall {
 			q = "forall"
+		}
+		for i, bv := range e.Vars {
+			if i < len(e.Types) && e.Types[i] != "" {
+				continue
+			}
+			body = reindexBound(body, n.vars[bv].S)
 		}
 		return specVal(fmt.Sprintf("(%s (%s) %s)", q, strings.Join(binds, " "), body), "Bool")
 	case *SCall:
@@ -313,6 +338,13 @@ func (c *SpecCtx) localVar(name string) (Val, bool) {
 	}
 	if v.S == "!unmergeable" {
 		sfail("variable %s has no single symbolic value here", name)
+	}
+	if v.DP != nil {
+		et := pick.Type().Underlying().(*types.Pointer).Elem()
+		v = Val{S: c.x.ptrTerm(v), T: et}
+	}
+	if v.Clo != nil || v.Fn != nil {
+		sfail("variable %s holds a function value", name)
 	}
 	return v, true
 }
@@ -652,6 +684,11 @@ func (c *SpecCtx) call(e *SCall) Val {
 			return Val{S: Ite("("+op+" "+a.S+" "+b.S+")", b.S, a.S), T: a.T, Bltn: a.Bltn}
 		}
 		return Val{S: Ite("("+op+" "+a.S+" "+b.S+")", a.S, b.S), T: a.T, Bltn: a.Bltn}
+	case "errors_is":
+		a, b := arg(0), arg(1)
+		x.S.DeclareFun("errors_is", []string{"Int", "Int"}, "Bool")
+		x.S.Axiom("errors_is", []string{"errors_is"}, "(forall ((e Int) (t Int)) (! (and (=> (and (= e t)) (errors_is e t)) (=> (and (= e 0) (not (= t 0))) (not (errors_is e t)))) :pattern ((errors_is e t))))")
+		return specVal("(errors_is "+a.S+" "+b.S+")", "Bool")
 	case "uf":
 		// uf(name, args...) : uninterpreted Int-valued function of Int arguments
 		id := e.Args[0].(*SIdent)
@@ -669,6 +706,17 @@ func (c *SpecCtx) call(e *SCall) Val {
 		if len(p.Params) != len(e.Args) {
 			sfail("pred %s: arity", e.Fn)
 		}
+		if p.Rec {
+			var args []Val
+			for i := range e.Args {
+				av := arg(i)
+				if c.binders == 0 && x.S.Inline == 0 && av.S != "" && av.S != "!nil" {
+					av.S = x.S.Define("a", x.sortOf(av), av.S)
+				}
+				args = append(args, av)
+			}
+			return c.recPredCall(p, args)
+		}
 		if c.depth > 20 {
 			sfail("pred recursion too deep in %s", e.Fn)
 		}
@@ -679,7 +727,11 @@ func (c *SpecCtx) call(e *SCall) Val {
 			n.vars[k] = vv
 		}
 		for i, pn := range p.Params {
-			n.vars[pn] = arg(i)
+			av := arg(i)
+			if c.binders == 0 && x.S.Inline == 0 && av.S != "" && av.S != "!nil" && av.DP == nil && av.Clo == nil {
+				av.S = x.S.Define("a", x.sortOf(av), av.S)
+			}
+			n.vars[pn] = av
 		}
 		return n.Eval(p.Body)
 	}
@@ -754,4 +806,186 @@ func (x *Exec) constVal(cv constant.Value, t types.Type) Val {
 	}
 	unsup("constant of type %s", t)
 	return Val{}
+}
+
+// ---- recursive predicates: uninterpreted function over (heaps, params) with
+// its definition as a pattern-triggered axiom ----
+
+type recDef struct {
+	uf       string
+	heapKeys []string
+	sorts    []string
+	building bool
+	collect  map[string]bool
+}
+
+func (c *SpecCtx) recPredCall(p *Pred, args []Val) Val {
+	x := c.x
+	if x.recDefs == nil {
+		x.recDefs = map[string]*recDef{}
+	}
+	rd := x.recDefs[p.Name]
+	if rd == nil {
+		rd = &recDef{uf: "rp_" + p.Name, building: true, collect: map[string]bool{}}
+		x.recDefs[p.Name] = rd
+		// collect the heaps read by the body (recursive calls evaluate to true)
+		x.S.Inline++
+		func() {
+			defer func() { x.S.Inline-- }()
+			qs := &State{cells: map[cellKey]Val{}, heaps: map[string]string{}, ghost: map[string]string{}, pc: "true", nr: c.st.nr, symHeaps: rd.collect}
+			n := &SpecCtx{x: x, st: qs, old: qs, vars: map[string]Val{}, pkg: c.pkg, binders: 1}
+			for i, pn := range p.Params {
+				name := x.S.Fresh("rpa")
+				n.vars[pn] = Val{S: name, T: args[i].T, Bltn: args[i].Bltn}
+				rd.sorts = append(rd.sorts, x.sortOf(args[i]))
+			}
+			n.Bool(p.Body)
+		}()
+		for k := range rd.collect {
+			rd.heapKeys = append(rd.heapKeys, k)
+		}
+		sortStrings(rd.heapKeys)
+		rd.building = false
+		var sorts []string
+		for _, k := range rd.heapKeys {
+			sorts = append(sorts, x.te.HeapSort(x.heapTypes[k]))
+		}
+		sorts = append(sorts, rd.sorts...)
+		x.S.DeclareFun(rd.uf, sorts, "Bool")
+	}
+	if rd.building {
+		return specVal("true", "Bool")
+	}
+	var hargs []string
+	for _, k := range rd.heapKeys {
+		if c.st.symHeaps != nil {
+			c.st.symHeaps[k] = true
+			hargs = append(hargs, symHeapName(k))
+		} else {
+			hargs = append(hargs, x.heap(c.st, x.heapTypes[k]))
+		}
+	}
+	var pargs []string
+	for _, a := range args {
+		pargs = append(pargs, a.S)
+	}
+	app := App(rd.uf, append(hargs, pargs...)...)
+	if c.binders == 0 && c.st.symHeaps == nil {
+		// ground occurrence: add the one-level unfolding as a definitional instance
+		key := app
+		if !x.unfolded[key] {
+			if x.unfolded == nil {
+				x.unfolded = map[string]bool{}
+			}
+			x.unfolded[key] = true
+			n := *c
+			n.binders = 1 // inner occurrences stay folded
+			n.vars = make(map[string]Val, len(c.vars)+len(p.Params))
+			for k, vv := range c.vars {
+				n.vars[k] = vv
+			}
+			for i, pn := range p.Params {
+				n.vars[pn] = args[i]
+			}
+			body := n.Bool(p.Body)
+			x.pendingFacts = append(x.pendingFacts, Eq(app, body))
+		}
+	}
+	return specVal(app, "Bool")
+}
+
+func symHeapName(k string) string { return "HQ_" + sanitize(k) }
+
+func sortStrings(a []string) {
+	for i := 1; i < len(a); i++ {
+		for j := i; j > 0 && a[j] < a[j-1]; j-- {
+			a[j], a[j-1] = a[j-1], a[j]
+		}
+	}
+}
+
+// reindexBound rewrites a body in which the bound variable q is used as a
+// slice index, "(+ (s_off S) q)", so that the bound variable becomes the
+// absolute index: q := q - (s_off S).  The quantified formula is equivalent
+// (the substitution is a bijection on Int) and its select-terms become clean
+// E-matching triggers without arithmetic.
+func reindexBound(body, q string) string {
+	pre := "(+ (s_off "
+	i := strings.Index(body, pre)
+	var sTerm string
+	for i >= 0 {
+		// parse the S term after "(+ (s_off "
+		j := i + len(pre)
+		k := matchTerm(body, j)
+		if k > j && strings.HasPrefix(body[k:], ") "+q+")") {
+			sTerm = body[j:k]
+			break
+		}
+		n := strings.Index(body[i+1:], pre)
+		if n < 0 {
+			break
+		}
+		i = i + 1 + n
+	}
+	if sTerm == "" || strings.Contains(sTerm, q) {
+		return body
+	}
+	full := "(+ (s_off " + sTerm + ") " + q + ")"
+	const mark = "\x00IDX\x00"
+	b := strings.ReplaceAll(body, full, mark)
+	// remaining occurrences of q as a token
+	b = replaceToken(b, q, "(- "+q+" (s_off "+sTerm+"))")
+	b = strings.ReplaceAll(b, mark, q)
+	return b
+}
+
+// matchTerm returns the index just past the s-expression starting at i.
+func matchTerm(s string, i int) int {
+	if i >= len(s) {
+		return i
+	}
+	if s[i] != '(' {
+		j := i
+		for j < len(s) && s[j] != ' ' && s[j] != ')' {
+			j++
+		}
+		return j
+	}
+	d := 0
+	for j := i; j < len(s); j++ {
+		switch s[j] {
+		case '(':
+			d++
+		case ')':
+			d--
+			if d == 0 {
+				return j + 1
+			}
+		}
+	}
+	return len(s)
+}
+
+func replaceToken(s, tok, repl string) string {
+	var sb strings.Builder
+	i := 0
+	for i < len(s) {
+		j := strings.Index(s[i:], tok)
+		if j < 0 {
+			sb.WriteString(s[i:])
+			break
+		}
+		j += i
+		end := j + len(tok)
+		okL := j == 0 || s[j-1] == ' ' || s[j-1] == '('
+		okR := end == len(s) || s[end] == ' ' || s[end] == ')'
+		sb.WriteString(s[i:j])
+		if okL && okR {
+			sb.WriteString(repl)
+		} else {
+			sb.WriteString(tok)
+		}
+		i = end
+	}
+	return sb.String()
 }
